@@ -1591,8 +1591,8 @@ fn absorb_hist(rep: &mut Report, st: &HistStats, prefix: &str) {
 }
 
 pub fn run(ctx: &Ctx) -> Report {
-    let hist_cases: u32 = ctx.tier.pick(4000, 40_000);
-    let port_cases: u32 = ctx.tier.pick(1200, 12_000);
+    let hist_cases: u32 = ctx.tier.pick(6000, 40_000);
+    let port_cases: u32 = ctx.tier.pick(1800, 12_000);
     let max_ops = ctx.tier.pick(30, 45);
     let mut rep = par_workers(ctx.threads, |wi| {
         let mut rep = Report::new(RULE);
